@@ -24,6 +24,12 @@ CHECKS = {
  "C06": ("exploration", "differential monitor: Unreal 2 server model vs the real decoder; exhaustive sweep over every string length byte x decoration x position",
          "Every length byte 0..=255 (both encodings) x {no escape, colour escape at start/middle/end, control codes} x 7 string positions is sent through the real query and must come back as the sent text with colour/control codes removed (8 960 cases, exhaustive), plus random states with repeated rule keys, mutators, bots and 1-6 datagrams per list.",
          "Implementation-defined format (DESIGN Appendix A.6); Latin-1 bytes 80-9f, a leading 01 in UCS-2 strings and truncated colour escapes are outside the asserted domain.", "4 C06"),
+ "C03": ("exploration", "differential monitor (five Minecraft status models vs the real decoders) + connection-log monitor for the auto-detect order over all 32 variant subsets",
+         "Java JSON, Bedrock pong and legacy 1.6/1.4/beta 1.8 states are encoded by independent models and decoded by the matching query; a reactive server speaking each of the 32 subsets of variants (hostile non-answers for the others: silence, empty close, garbage, truncation, refused connection) checks that protocol::query, games::minecraft::query and query_legacy return the first answering variant in documented order, labelled as such, AutoQuery iff none, and that the recorded connections/requests follow exactly that order.",
+         "Models from wiki.vg / RakNet as reproduced in DESIGN Appendix A.7; description compared as JSON.", "4 C03"),
+ "C07": ("exploration", "differential monitor: seven single-game reply models vs the real decoders (scripted transport; Eco over a real loopback HTTP server)",
+         "FFOW, Savage 2, JC2-MP, Mindustry, The Ship, Battalion 1944 (all 64 subsets of its rule overrides) and Eco replies generated from random states must come back field for field; an Eco reply lacking a member must fail rather than be filled in.",
+         "Implementation-defined formats (DESIGN Appendix A.8); Eco floats restricted to values the JSON library parses exactly.", "4 C07"),
 }
 NOT_YET = {}
 for i in range(1, 21):
